@@ -17,7 +17,8 @@ RULE = ('Seeded relativedeltas: any subset of signed relative fields (small, uni
         '(carried vs uncarried units, weeks vs days, weekday n absent/0/1, int vs weekday object): ==, equal hashes, '
         'set/dict collapse, equal results on a panel of dates; per triple: transitivity; non-integer years/months '
         'must raise ValueError.  Non-trivial = the law instance involves a carry, a float, a weekday, or >= 2 field '
-        'kinds; distinct = (law, field-kind set / spelling kind, carry-or-float flag).')
+        'kinds; distinct = (law, field-kind set / spelling kind, carry-or-float flag).'
+        ' Also: pairs differing in exactly one field (whatever the library calls equal must be interchangeable: same sums, hash, truth value) and assignment through the weeks property after hashing.')
 ASSUMPTIONS = ['CPython numerics and datetime', 'equality of deltas is the library\'s own __eq__ (the property is about its '
                'consistency, not about an external notion of equality)']
 MANIFEST = {
